@@ -90,6 +90,136 @@ Example C17_clean_input_nonvacuous :
   command_gen fasta_split 3 2 fasta_detect (Some 5) s = ExitOk [[62;97;10;97;99;103;116]; [62;98;10;97;99]].
 Proof. vm_compute. repeat split; reflexivity. Qed.
 
+(* ================================================================ round 2 ================================================================ *)
+(* --- xopen's end-of-stream guard for xz (the library ends several truncations with a clean io.EOF) *)
+
+(* xzStreamEnd, fed by any sequence of Read calls, decides exactly "the bytes read end with a valid index (when it fits in the
+   window) and a valid stream footer followed by stream padding (a multiple of 4 zero bytes)": the verdict depends on the
+   concatenation of the chunks only, for every size of the window *)
+Theorem C17_xz_tracker_schedule_independent :
+  forall chunks : list (list N), xz_complete_st (xz_track chunks) = xz_complete (concat chunks).
+Proof. exact xz_track_complete. Qed.
+
+(* [core] whatever the xz library answers (clean EOF included) and whatever it decoded, an xz container which does not end with
+   a valid stream footer makes the command fatal: the codec contract is no longer an assumption for this class of damage *)
+Theorem C17_xz_guard_rejects_incomplete :
+  forall (split : list N -> option nat) (B ext : N) (detect : list N -> bool) (sn : option N) (raw data : list N) (lib : rfin),
+    (forall b e, split b = Some e -> (0 < e <= length b)%nat) -> 1 <= ext ->
+    xz_complete raw = false ->
+    command_gen split B ext detect sn (mkstream data (xz_guard raw lib)) = ExitFatal.
+Proof.
+  intros split B ext detect sn raw data lib Hs HE Hc.
+  apply (command_fault_is_fatal split B ext Hs HE detect sn). cbn [fin]. apply xz_guard_not_eof. exact Hc.
+Qed.
+
+Theorem C17_xz_tracker_schedule_independent_any_window :
+  forall W (chunks : list (list N)), xz_complete_st (xz_track_w W chunks) = xz_complete_w W (concat chunks).
+Proof. exact xz_track_complete_w. Qed.
+
+(* the guard changes nothing on a container which ends with a stream footer *)
+Theorem C17_xz_guard_transparent :
+  forall raw lib, xz_complete raw = true -> xz_guard raw lib = lib.
+Proof. exact xz_guard_transparent. Qed.
+
+(* without the guard (round-1 state): the 12 bytes stream header alone, which the library ends with a clean EOF before any data,
+   is an EMPTY FILE for xopen.Buf (ErrNoContent) and the command exits 0; with the guard it is fatal. Same on the real code. *)
+Theorem C17_xz_unguarded_refuted :
+  xz_complete xz_header_only = false /\
+  command_outcome (mkstream [] REof) = ExitOk [] /\
+  command_outcome (mkstream [] (xz_guard xz_header_only REof)) = ExitFatal /\
+  xz_guard xz_empty_container REof = REof.
+Proof. vm_compute. repeat split; reflexivity. Qed.
+
+(* ErrNoContent (the input is handled as an empty file) is answered only for an empty decoded stream which ends cleanly; behind
+   the xz guard only if moreover the compressed bytes end with a stream footer *)
+Theorem C17_no_content_only_if_clean_and_empty :
+  forall s, open_fixed (wrap s) = NoContent -> data s = [] /\ fin s = REof.
+Proof.
+  intros [d f] H. unfold open_fixed, wrap in H. cbn [rdata rfin_ data fin] in *.
+  destruct d; [|discriminate]. destruct f; try discriminate. split; reflexivity.
+Qed.
+
+Theorem C17_xz_no_content_only_if_complete :
+  forall raw data lib, open_fixed (wrap (mkstream data (xz_guard raw lib))) = NoContent -> data = [] /\ xz_complete raw = true.
+Proof.
+  intros raw data lib H. apply C17_no_content_only_if_clean_and_empty in H. cbn [Model.data fin] in H.
+  destruct H as [Hd Hf]. split; [exact Hd|].
+  destruct (xz_complete raw) eqn:E; [reflexivity|]. exfalso. eapply xz_guard_not_eof; eassumption.
+Qed.
+
+(* --- readers with a read schedule (source with per-call sizes and a final error delivered alone or together with the last
+       bytes, bytes.Reader, io.MultiReader, bufio.Reader) *)
+
+(* io.ReadFull as the loop of Read calls gives the bytes and the error of the abstract `readfull` on the stream the reader stands
+   for, and leaves a reader which stands for the rest: the round-1 theorems hold for every read schedule *)
+Theorem C17_readfull_schedule_independent :
+  forall k r a r' e, wf r -> readfull_s k k [] r = (a, r', e) ->
+    wf r' /\ fst (fst (readfull (N.of_nat k) (den_stream r))) = a /\ snd (readfull (N.of_nat k) (den_stream r)) = e /\
+    (e = ENil -> snd (fst (readfull (N.of_nat k) (den_stream r))) = den_stream r').
+Proof. exact readfull_schedule_independent. Qed.
+
+(* OBIMimeTypeGuesser on readers (ReadFull of sn bytes, detection on the whole zero padded buffer, MultiReader(bytes.Reader, stream)
+   or bytes.Reader alone) is the `sniff` of the abstract model *)
+Theorem C17_sniffer_refines_model :
+  forall sn r, wf r ->
+    match sniff_s sn r, sniff (N.of_nat sn) (den_stream r) with
+    | Some (seen, r1), Some (a, s1) => seen = a ++ repeat 0 (sn - length a) /\ den_stream r1 = s1 /\ wf r1
+    | None, None => True
+    | _, _ => False
+    end.
+Proof. exact sniff_s_refines. Qed.
+
+(* [core] no byte is lost or duplicated between sniffing and parsing, the way the stream ends is kept: for every source, read
+   schedule and buffering layer the reader handed to the parser stands for exactly the stream of the source; the detector has
+   seen its first sn bytes, padded with zeros up to sn *)
+Theorem C17_sniffer_conserves_stream :
+  forall sn r seen r1, wf r -> snd (den r) <> FUnexpected -> sniff_s sn r = Some (seen, r1) ->
+    wf r1 /\ den r1 = den r /\ seen = firstn sn (fst (den r)) ++ repeat 0 (sn - length (firstn sn (fst (den r)))).
+Proof. exact sniffer_conserves_stream. Qed.
+
+(* a consumer reading with any request sizes until the first error receives all the bytes of the stream, then its end *)
+Theorem C17_drain_any_schedule :
+  forall fuel ks r, wf r -> (length (fst (den r)) < fuel)%nat -> drain fuel ks r = (fst (den r), Some (snd (den r))).
+Proof. exact drain_den. Qed.
+
+(* end to end: source (any schedule, error alone or with the last bytes) -> bufio.Reader of xopen.Buf -> OBIMimeTypeGuesser ->
+   bufio.Reader of readSequencesFromReader -> any consumer: exactly the bytes of the source, then its final error *)
+Theorem C17_sniff_pipeline_conserves :
+  forall d sch f eager bs1 bs2 sn seen r1 ks fuel, f <> FUnexpected ->
+    sniff_s sn (RBuf bs1 [] None (RSrc d sch f eager)) = Some (seen, r1) -> (length d < fuel)%nat ->
+    drain fuel ks (RBuf bs2 [] None r1) = (d, Some f).
+Proof. exact sniff_pipeline_conserves. Qed.
+
+(* [core] the fault theorem at the level of readers: whatever the read schedule, a reader whose stream ends with ErrTruncatedInput
+   or another error makes the command fatal *)
+Theorem C17_fault_is_fatal_any_schedule :
+  forall (split : list N -> option nat) (B ext : N) (detect : list N -> bool) (sn : option N) (r : reader),
+    (forall b e, split b = Some e -> (0 < e <= length b)%nat) -> 1 <= ext ->
+    snd (den r) = FTruncated \/ snd (den r) = FOther ->
+    pipeline split B ext detect open_fixed sn (den_stream r) = ExitFatal.
+Proof.
+  intros split B ext detect sn r Hs HE Hf.
+  assert (E : exists s, den_stream r = wrap s /\ fin s <> REof).
+  { unfold den_stream. destruct Hf as [Hf|Hf]; rewrite Hf.
+    - exists (mkstream (fst (den r)) RUnexpectedEof). split; [reflexivity | discriminate].
+    - exists (mkstream (fst (den r)) ROther). split; [reflexivity | discriminate]. }
+  destruct E as (s & Es & Hne). rewrite Es.
+  exact (command_fault_is_fatal split B ext Hs HE detect sn s Hne).
+Qed.
+
+(* the schedule-level definitions compute: eager EOF, 1/3/1/7-byte reads, two bufio layers of 4 and 3 bytes, sniffer of 5 bytes *)
+Example C17_schedule_nonvacuous :
+  let src := RBuf 4 [] None (RSrc [62;97;10;97;99;103;116;10;62;98;10;97;99;10] [0;2;0;6]%nat FEof true) in
+  exists seen r1, sniff_s 5 src = Some (seen, r1) /\ seen = [62;97;10;97;99] /\
+    drain 40 [0;3;1]%nat (RBuf 3 [] None r1) = ([62;97;10;97;99;103;116;10;62;98;10;97;99;10], Some FEof).
+Proof. eexists. eexists. vm_compute. repeat split; reflexivity. Qed.
+
+Example C17_xz_guard_nonvacuous :
+  xz_complete (xz_empty_container ++ [0;0;0;0]) = true /\ xz_complete (xz_empty_container ++ [0;0;0]) = false /\
+  xz_complete (firstn 12 xz_empty_container ++ [128] ++ skipn 13 xz_empty_container) = false /\
+  xz_complete_st (xz_track [firstn 14 xz_empty_container; firstn 17 (skipn 14 xz_empty_container); skipn 31 xz_empty_container]) = true.
+Proof. vm_compute. repeat split; reflexivity. Qed.
+
 Print Assumptions C17_fault_is_fatal.
 Print Assumptions C17_clean_input_is_complete.
 Print Assumptions C17_fasta_splitter_cuts_inside.
@@ -100,3 +230,16 @@ Print Assumptions C17_fault_is_fatal_orig_refuted.
 Print Assumptions C17_chunker_orig_refuted.
 Print Assumptions C17_first_read_error_orig_refuted.
 Print Assumptions C17_witnesses_repaired.
+Print Assumptions C17_xz_tracker_schedule_independent.
+Print Assumptions C17_xz_tracker_schedule_independent_any_window.
+Print Assumptions C17_xz_guard_rejects_incomplete.
+Print Assumptions C17_xz_guard_transparent.
+Print Assumptions C17_xz_unguarded_refuted.
+Print Assumptions C17_no_content_only_if_clean_and_empty.
+Print Assumptions C17_xz_no_content_only_if_complete.
+Print Assumptions C17_readfull_schedule_independent.
+Print Assumptions C17_sniffer_refines_model.
+Print Assumptions C17_sniffer_conserves_stream.
+Print Assumptions C17_drain_any_schedule.
+Print Assumptions C17_sniff_pipeline_conserves.
+Print Assumptions C17_fault_is_fatal_any_schedule.
